@@ -135,6 +135,24 @@ func watchdog(limit time.Duration) {
 			os.Exit(3)
 		}
 		if stalled > 60*time.Second {
+			// One goroutine of the bubble has been running, without ever
+			// blocking or reaching a scheduling point, in the same go-libipni
+			// function (no harness code above it on its stack) in each of
+			// ten samples taken over two more seconds: a loop that does not
+			// end. Nothing in these scenarios computes for a minute.
+			if fn, ok := spinning(gs); ok {
+				res := *c
+				res.Type = "hang"
+				res.OK = false
+				res.Viol = []simkit.Violation{{Oracle: "hang", Msg: "a goroutine has been running in " + fn + " for a minute without blocking or reaching a scheduling point: a loop that does not end", Step: heartbeat.Load()}}
+				if r := curRun.Load(); r != nil {
+					res.Tape = r.Tape.Recorded()
+					res.Trace = r.CanonicalLog()
+					res.Steps = r.Step()
+				}
+				emit(&res)
+				os.Exit(3)
+			}
 			fmt.Fprintf(os.Stderr, "WATCHDOG: no progress for %v, not a provable hang (running=%d mutexWait=%d)\n", stalled, running, mutexWait)
 			for _, g := range gs {
 				if g.Bubble != "" {
@@ -144,6 +162,44 @@ func watchdog(limit time.Duration) {
 			os.Exit(4)
 		}
 	}
+}
+
+// spinner names the bubble goroutine that is running inside go-libipni code
+// with no harness frame above that code, and the innermost go-libipni
+// function on its stack.
+func spinner(gs []simkit.Goroutine) (id, fn string) {
+	for _, g := range gs {
+		// (the runtime does not always name the bubble in the header of a
+		// goroutine that is not waiting)
+		if g.State != "running" && g.State != "runnable" {
+			continue
+		}
+		lib := strings.Index(g.Stack, "github.com/ipni/go-libipni/")
+		harness := strings.Index(g.Stack, "verif/sim/")
+		if lib < 0 || harness >= 0 && harness < lib {
+			continue
+		}
+		if id != "" {
+			return "", "" // more than one: not this pattern
+		}
+		id, fn = g.ID, g.TopFunc()
+	}
+	return id, fn
+}
+
+func spinning(first []simkit.Goroutine) (string, bool) {
+	id, fn := spinner(first)
+	if id == "" {
+		return "", false
+	}
+	for i := 0; i < 10; i++ {
+		time.Sleep(200 * time.Millisecond)
+		id2, fn2 := spinner(simkit.DumpGoroutines())
+		if id2 != id || fn2 != fn {
+			return "", false
+		}
+	}
+	return fn, true
 }
 
 func dedup(in []string) []string {
